@@ -4,33 +4,42 @@ import json, os, re, collections
 READY = True
 
 META = {
-    "technique": "Lean 4 proof (lexer line/column/offset bookkeeping, span widening, instruction line/span side tables, "
-                 "debug-render arithmetic) + differential correspondence of the model against the real tokenizer, parser "
-                 "spans, instruction tables and located errors of planted failures under vertical/horizontal shifts",
+    "technique": "Lean 4 proof (lexer line/column/offset bookkeeping, span widening, code generator line/span-stack machine, "
+                 "instruction line/span side tables, debug-render arithmetic, source ties decided on tables regenerated from /repo) "
+                 "+ differential correspondence of the model against the real tokenizer, parser spans, CodeGenerator, Instructions "
+                 "tables and located errors of planted failures under vertical/horizontal shifts and environment configurations",
     "category": "proof",
     "text": "Kernel-checked theorems about an executable model of Tokenizer::{advance,loc,span,syntax_error}, "
-            "TokenStream::expand_span, Instructions::{add_with_line,add_with_span,get_line,get_span}, process_err and the "
-            "arithmetic of render_debug_info: the line is 1 + number of consumed newlines (saturating at 65535), the offset "
-            "is the UTF-8 length of the consumed prefix, every span the tokenizer can create (for every possible sequence of "
-            "advance/loc/span/syntax_error calls) is an in-bounds char-boundary slice whose line/column are those of its "
-            "offsets, a prefix of N lines shifts every span by exactly N lines and nothing else, the side tables return the "
-            "recorded line/span for every add sequence, the debug renderer's arithmetic never panics. Tied to /repo by running "
-            "the model against the real tokenizer (all token spans), all AST spans, the real Instructions tables (exhaustive "
-            "small add sequences + compiled templates) and the located error chains of ~1500 failing templates under 7x4 shifts; "
-            "the property itself (name, line inside source, range valid slice, shift invariance, formatting never panics) is "
-            "evaluated on every real error.",
+            "TokenStream::expand_span, CodeGenerator::{set_line,push_span,pop_span,add,add_with_span}, "
+            "Instructions::{add_with_line,add_with_span,get_line,get_span}, process_err and the arithmetic of render_debug_info: "
+            "the line is 1 + number of consumed newlines (saturating at 65535), the offset is the UTF-8 length of the consumed "
+            "prefix, every span the tokenizer can create (for every possible sequence of advance/loc/span/syntax_error calls) is "
+            "an in-bounds char-boundary slice whose line/column are those of its offsets, a prefix of N lines shifts every span by "
+            "exactly N lines and nothing else, text inserted in a line shifts only the columns of that line, an instruction added "
+            "after a balanced push/pop script gets the statement's line and no foreign span, the side tables return the recorded "
+            "line/span for every add sequence, the debug renderer's arithmetic never panics; and, decided on a table regenerated "
+            "from vm/mod.rs, every fallible expression of every instruction arm of the interpreter leaves through process_err. "
+            "Tied to /repo by running the model against the real tokenizer (all token spans), all AST spans, the real "
+            "CodeGenerator and Instructions (exhaustive small scripts + compiled templates) and by evaluating the property itself "
+            "(name, line inside source, range valid slice, shift invariance, some error on the failing construct, formatting never "
+            "panics) on the located error chains of ~2500 failing templates: one construct per fallible interpreter row x contexts, "
+            "span-less code generator sites x span-stack contexts x sub-expression kinds, failing prints in every construct, syntax "
+            "errors at every token position, under 7x4 shifts and 14 environment configurations / entry points.",
     "design_ref": "DESIGN.md §3 C14",
     "level_note": "Trusted: Lean kernel; hand transcription of the listed Rust functions into MJ/Model/Loc.lean (validated by the "
-                  "correspondence streams); std's binary_search_by_key is modelled by its contract on sorted slices (sortedness "
-                  "of the tables is proved). Only validated, not proved: that the tokenizer's rules / parser / codegen thread "
-                  "spans so that the span of the failing construct reaches the error (checked by the shift oracle and by the "
-                  "model predicting line, caret column/width and window from the reported offsets on every planted failure).",
+                  "correspondence streams lex/ast/cg/tbl/ins); lib/tables/c14.py (regular-expression extraction of the interpreter "
+                  "rows, CodeGenerator::add sites and integer widths); std's binary_search_by_key is modelled by its contract on "
+                  "sorted slices (sortedness of the tables is proved). Only validated, not proved: that the tokenizer's rules, the "
+                  "parser and the statement compilers call the location primitives with the span of the construct at hand (checked "
+                  "by the shift / right-line oracle, the per-statement line-range check and the model predicting line, caret "
+                  "column/width and window from the reported offsets on every planted failure).",
 }
 
 CFG_NAMES = {"d": "default (debug on)", "x": "debug off", "p": "pass-through custom formatter", "n": "failing custom formatter",
              "a": "custom auto-escape format", "k": "keep_trailing_newline", "t": "trim_blocks+lstrip_blocks",
              "c": "custom delimiters", "s": "strict undefined", "m": "semi-strict undefined", "h": "chainable undefined",
              "r": "recursion limit 1", "w": "render_captured_to a writer", "l": "loader-backed, lazily compiled templates"}
+
 # Every instruction that the code generator emits through `CodeGenerator::add` (location = current line /
 # innermost span) AND that can fail in the VM (tables C14_CODEGEN_ADDS, C14_VM_FALLIBLE, regenerated from the
 # sources on every run).  "own": the generator pushes the construct's own span around the add;
@@ -753,17 +762,25 @@ def do_ins(r, q, pending, case, spec, res):
 
 # ---------------------------------------------------------------------------------------------- entry points
 def run(r):
-    r.rule = ("err: every fixed-site failing template (runtime errors in every construct incl. macros, blocks, includes, super, "
-              "call/filter blocks, loops; syntax errors of every lexer/parser error site) and syntax errors planted at every token "
-              "position of 13 base templates (truncation, bad token before/inside the token, bad construct in data), each under "
-              "vertical shifts {0,1,2,7,300,up to 65535 lines,70000} x horizontal shifts {0,1,3 multi-byte,65540 columns} "
-              "(planted cases: small shifts always, large ones sampled in the quick tier); lex: all those sources + random token "
-              "soups under 4 lexer configurations; ast/ins: every span of the AST and every instruction's line/span of all valid "
-              "templates; tbl: every add sequence up to length 5 (6 thorough) over 7 ops + random long ones. A case is "
-              "non-trivial when it yields an error / tokens / spans.")
+    r.rule = ("err: failing templates = fixed-site cases (runtime errors in every construct incl. macros, blocks, includes, super, "
+              "call/filter blocks, loops; every lexer/parser error site; failing prints in 31 constructs; one construct per fallible "
+              "row of eval_impl (table C14_VM_ROWS) x 8 contexts; span-less code generator sites x 20 span-stack contexts x 9 "
+              "sub-expression kinds; user code handing through located errors; lazily loaded templates with syntax errors / "
+              "failing loaders; render_block / call_macro / render_captured / Expression API entry points) and syntax errors planted "
+              "at every token position of 13 base templates, each under vertical shifts {0,1,2,7,300,up to 65535 lines,70000} x "
+              "horizontal shifts {0,1,3 multi-byte,65540 columns} x environment configurations {default, debug off, pass-through / "
+              "failing formatter, custom auto-escape format, keep_trailing_newline, trim+lstrip, custom delimiters, strict / "
+              "semi-strict / chainable undefined, recursion limit 1, writer output, loader-backed} (quick tier: whole shift grid in "
+              "the default configuration, reduced grids elsewhere, generated sites rotate contexts/kinds; thorough: everything); "
+              "lex: all those sources + random token soups under 4 lexer configurations; ast/ins/stm: every AST span, every "
+              "instruction's line/span and per top-level statement line range of all valid templates; tbl/cg: every add sequence / "
+              "code generator script up to length 5/4 (6/5 thorough) + random long ones. Non-trivial = yields an error / tokens / "
+              "spans / instructions.")
     r.assumptions = ["sources shorter than 2^32 bytes (offsets are stored as u32)",
                      "slice::binary_search_by_key meets its documented contract on sorted slices",
-                     "shift invariance is claimed for templates of at most 65535 lines (u16 line counter saturates beyond)"]
+                     "shift invariance is claimed for templates of at most 65535 lines (u16 line counter saturates beyond)",
+                     "errors raised by an API entry point itself (render_block / call_macro on a missing name or under a recursion "
+                     "limit that already forbids their frame) belong to no template construct and are not expected to be located"]
     st = r.regen_tables(["C14_CODEGEN_ADDS", "C14_VM_FALLIBLE", "C14_VM_ROWS", "C14_LOC_WIDTHS"])
     r.lean_prove("MJ.Props.C14", "MJ/Audit/C14.lean", extra_targets=["drive_c14"])
     exe = r.cargo_build("c14")
